@@ -20,10 +20,12 @@ from .core import SInt, SReal, is_sym
 CUR: list = [None]  # the current Inputs (set by harnesses through bind())
 
 
-def bind(inp) -> None:
+def bind(inp, fixed: bool = False) -> None:
+    """fixed=True: buffers are the constant (tr//2, tr//2) (concrete timelines for harnesses that sample)."""
     CUR[0] = inp
     inp.memo = {}
     inp.nreq = 0
+    inp.fixed_buffers = fixed
 
 
 def _skey(x) -> str:
@@ -54,7 +56,12 @@ def stub_modulation_buffers(self, channel, eom: bool = False):
         return 0, 0
     inp = CUR[0]
     tr = channel.eom_config.rise_time if eom else channel.rise_time
-    key = ("buf", wf_key(self), id(channel), bool(eom))
+    if getattr(inp, "fixed_buffers", False):
+        return tr // 2, tr // 2
+    # the buffers are a function of the waveform and of the modulation seen by it (two channel objects with the
+    # same bandwidth / rise time give the same buffers: needed when a sequence is rebuilt on another device)
+    eom_bw = getattr(channel.eom_config, "mod_bandwidth", None) if eom else None
+    key = ("buf", wf_key(self), _skey(channel.mod_bandwidth), _skey(eom_bw), _skey(tr), bool(eom))
     inp.nreq += 1
     if key in inp.memo:
         return inp.memo[key]
